@@ -695,8 +695,8 @@ def gen_case(rng, pw, n, feat, tier):
     univ = []
     size = rng.choice([3, 4, 5, 6, 7, 8])
     if feat == "complex-nan":
-        univ.append(gen_value(rng, w, t, None) if t[0] == "T" else ("c", "fn", "fh2"))
-        if t[0] == "T":
+        univ.append(gen_value(rng, w, t, None) if w.under(t)[0] == "T" else ("c", "fn", "fh2"))
+        if w.under(t)[0] == "T":
             univ[0] = ("t", [("c", "fn", "fh2"), univ[0][1][1]])
     if feat == "floatarray-nan":
         ut = w.under(t)
@@ -748,8 +748,20 @@ def gen_case(rng, pw, n, feat, tier):
         elif r < 0.85:
             classes = sorted(set(cls))
             rng.shuffle(classes)
+            first = []
+            if rng.random() < 0.6:
+                # fill the map first; the keys inserted first are the ones a loop has already visited when it mutates at
+                # visit t >= 1, so deleting them shrinks the map below the number of `next()` calls still needed
+                idx = list(range(len(univ)))
+                rng.shuffle(idx)
+                ents = [(j, rng.randrange(1, 50)) for j in idx[:rng.randrange(3, 9)]]
+                steps.append(("lit", ents))
+                first = [cls[j] for j, _ in ents[:2]]
             cut = rng.randrange(0, len(classes) + 1)
             dcl, icl = set(classes[:cut][:rng.randrange(0, 4)]), set(classes[cut:][:rng.randrange(0, 4)])
+            if first and rng.random() < 0.8:
+                dcl.add(rng.choice(first))
+                icl -= dcl
             dels = [j for j in range(len(univ)) if cls[j] in dcl and rng.random() < 0.8]
             inss = [j for j in range(len(univ)) if cls[j] in icl and rng.random() < 0.8]
             steps.append(("rng", rng.randrange(0, 4), dels, inss, rng.randrange(50, 60)))
